@@ -105,6 +105,12 @@ def run(pid, tier, seed):
         cov["generated"] = len(gen)
         tmo = "TRUE" if pid == "C16" else "FALSE"
         groups.append((gen_tlc.cfg_for(mcp), gen, "tlc", {"TimeoutOn": tmo}))
+        if os.path.exists(os.path.join(common.SPEC, "GEN_%sp.cfg" % mcp)):
+            # behaviours of the model in which a client stops reading for a while (client-side back-pressure)
+            genp = gen_tlc.scenarios(mcp + "p", 60 if q else 1500, seed * 1000 + 77)
+            genp = [s for s in genp if any(x["op"] == "pause" for x in _stims(s))]
+            cov["generated"] += len(genp)
+            groups.append((gen_tlc.cfg_for(mcp + "p"), genp, "tlcp", None))
         # 3. random walks over the same stimulus alphabet
         for prof, nq, nt in PLANS[pid]:
             n = nq if q else nt
